@@ -18,6 +18,7 @@ pub fn kind_name(k: u64) -> &'static str {
         4 => "lowentropy",
         5 => "mixed",
         6 => "farrepeat",
+        8 => "quotednoise",
         _ => "degenerate",
     }
 }
@@ -120,10 +121,32 @@ pub fn far_repeat(r: &mut Rng, n: usize) -> Vec<u8> {
     v
 }
 
+/// compressible text, then an incompressible blob (compressors emit it as stored blocks), then text that
+/// quotes pieces of the blob: references that point into a stored block, optionally after more than
+/// 32 KiB of matched data
+pub fn quoted_noise(r: &mut Rng, n: usize) -> Vec<u8> {
+    let lead = if r.chance(1, 2) { 33_000 + r.usize_below(20_000) } else { r.usize_below(4000) };
+    let lead = lead.min(n * 2 / 3);
+    let mut v = text(r, lead);
+    let blob_len = 600 + r.usize_below(6000);
+    let blob = r.bytes(blob_len);
+    v.extend_from_slice(&blob);
+    while v.len() < n {
+        let t = 20 + r.usize_below(600);
+        v.extend(text(r, t));
+        let a = r.usize_below(blob.len());
+        let l = (3 + r.usize_below(120)).min(blob.len() - a);
+        v.extend_from_slice(&blob[a..a + l]);
+    }
+    v.truncate(n.max(lead + blob_len));
+    v
+}
+
 /// one plaintext of about `n` bytes; returns (kind, bytes)
 pub fn make(r: &mut Rng, n: usize) -> (u64, Vec<u8>) {
-    let k = r.below(16);
+    let k = r.below(17);
     let k = match k {
+        16 => 8,
         0..=4 => 0,
         5..=6 => 1,
         7..=8 => 2,
@@ -154,6 +177,7 @@ pub fn make_kind(r: &mut Rng, k: u64, n: usize) -> Vec<u8> {
             v
         }
         6 => far_repeat(r, n),
+        8 => quoted_noise(r, n),
         _ => match r.below(4) {
             0 => vec![],
             1 => vec![r.byte()],
